@@ -339,7 +339,40 @@ def tr_preds():
     return '\n'.join(lines) + '\n'
 
 
-TRANSLATORS = [('ThreadProg.v', tr_threadprog), ('Consts.v', tr_consts), ('Preds.v', tr_preds)]
+# ---------------------------------------------------------------- gen/Index.v
+
+def tr_index():
+    import json
+    path = os.path.join(REPO_SRC, 'data', 'scancode-licensedb-index.json')
+    with open(path) as f:
+        idx = json.load(f)
+    if not isinstance(idx, list):
+        raise Unsupported('license index is not a list')
+    lines = ['(* generated from /repo/src/license_expression/data/scancode-licensedb-index.json; do not edit *)',
+             'Require Import Model.Base Model.Index.', 'Open Scope N_scope.',
+             'Definition E (k s : str) (o : list str) (x d : bool) : ientry :=',
+             '  {| license_key := k; spdx_key := s; other_spdx := o; iexc := x; deprecated := d |}.',
+             'Definition shipped_index : list ientry := [']
+    rows = []
+    for l in idx:
+        if not isinstance(l, dict):
+            raise Unsupported('index entry is not a mapping')
+        k = l.get('license_key', '') or ''
+        s = l.get('spdx_license_key', '') or ''
+        o = l.get('other_spdx_license_keys', []) or []
+        x = bool(l.get('is_exception', ''))
+        d = bool(l.get('is_deprecated', False))
+        for t in [k, s] + list(o):
+            if not isinstance(t, str) or any(ord(c) > 127 for c in t):
+                raise Unsupported('index name %r is not ASCII text' % (t,))
+        rows.append('E %s %s [%s] %s %s' % (coq_str(k), coq_str(s), '; '.join(coq_str(a) for a in o),
+                                            'true' if x else 'false', 'true' if d else 'false'))
+    lines.append(';\n'.join(rows))
+    lines.append('].')
+    return '\n'.join(lines) + '\n'
+
+
+TRANSLATORS = [('ThreadProg.v', tr_threadprog), ('Consts.v', tr_consts), ('Preds.v', tr_preds), ('Index.v', tr_index)]
 
 
 def regenerate():
